@@ -274,18 +274,19 @@ def obligations(tier):
     full = [(tid, st, ek, 2) for tid in ("T1", "T3", "T4", "T5", "T7", "T7p", "T8", "T10", "T12", "T13", "T17") for st in ("dict", "file_array", "dict_sub", "mix_file_first", "mix_sub_first") for ek in ("single", "default_dict", "per_output")]
     for tid, st, ek, hi in full if thorough else quick:
         t = T[tid]
-        nch = (4 if tid == "T1" else 3) if not thorough else 6
+        big = tid in ("T4", "T8", "T10", "T12", "T17")  # several functions per generation / rank 3: the schedule space explodes
+        nch = (4 if tid == "T1" else 3) if not thorough else (4 if big else 5)
         cpre = " and ".join(f"0 <= c{i} <= 3" for i in range(nch)) + " and " + " and ".join(f"c{i} == 0" for i in range(nch, 8))
         obs.append(
             Ob(
                 f"sched_{tid}_{st}_{ek}",
                 C + MAP_PARAMS,
-                [cpre] + (tmpl.size_pre(t, hi) if (thorough or tid == "T1") else [" and ".join(f"n{a} == {2 if a < t.axes else 1}" for a in range(3))]),
+                [cpre] + (tmpl.size_pre(t, hi) if ((thorough and not big) or tid == "T1") else [" and ".join(f"n{a} == {2 if a < t.axes else 1}" for a in range(3))]),
                 f"H.sched({tid!r}, {st!r}, {ek!r}, {CARGS}, {MAP_ARGS})",
-                timeout=600,
+                timeout=600 if not thorough else 1200,
                 flags=("tokpickle",),
                 bounds=f"{tid}: {t.doc}; storage {st}; executor {ek}; the first {nch} scheduling choices symbolic in 0..3 (all completion orders of up to "
-                f"4 pending tasks), sizes {'1..' + str(hi) if (thorough or tid == 'T1') else '2 per axis'}; values unbounded",
+                f"4 pending tasks), sizes {'1..' + str(hi) if ((thorough and not big) or tid == 'T1') else '2 per axis'}; values unbounded",
                 canaries=("results_paired_by_completion_order",) if (tid, st, ek) == ("T1", "dict", "single") else (),
             )
         )
